@@ -174,13 +174,6 @@ let content st kind n = match kind with
   | 0 -> String.make n '\000' | 1 -> String.init n (fun i -> Char.chr (i land 255))
   | 2 -> String.make n '\255' | _ -> rbytes st n
 
-(* the Coq string type <-> OCaml strings *)
-let rec coq_string_of (s : string) i : Mtbl_model.string =
-  if i >= String.length s then EmptyString
-  else String (ascii_of_N (n_of_int (Char.code s.[i])), coq_string_of s (i + 1))
-let rec ocaml_string_of (s : Mtbl_model.string) : string =
-  match s with EmptyString -> "" | String (c, tl) -> String.make 1 (Char.chr (int_of_n (n_of_ascii c))) ^ ocaml_string_of tl
-
 let check_names acc =
   let names = [ "none"; "snappy"; "zlib"; "lz4"; "lz4hc"; "zstd" ] in
   let variants = List.concat_map (fun n -> [ n; String.uppercase_ascii n; String.capitalize_ascii n; n ^ " "; " " ^ n; n ^ "x";
